@@ -41,6 +41,58 @@ type CDisk struct {
 	// counters
 	nwrite, nbarrier, nread uint64
 	closed                  bool
+	// read gate: the n-th read issued by goroutine gateG parks until the gate
+	// is opened (directed interleavings at disk-access points)
+	gateG          int64
+	gateN, gateCnt int
+	gateHit        chan struct{}
+	gateGo         chan struct{}
+}
+
+// ArmReadGate arms the gate for the calling goroutine: its n-th disk read
+// from now on parks.  The returned channel is closed when it parks.
+func (d *CDisk) ArmReadGate(n int) chan struct{} {
+	g := goid()
+	d.mu.Lock()
+	defer d.mu.Unlock()
+	d.gateG, d.gateN, d.gateCnt = g, n, 0
+	d.gateHit = make(chan struct{})
+	d.gateGo = make(chan struct{})
+	return d.gateHit
+}
+
+func (d *CDisk) OpenReadGate() {
+	d.mu.Lock()
+	g := d.gateGo
+	d.gateGo = nil
+	d.mu.Unlock()
+	if g != nil {
+		close(g)
+	}
+}
+
+func (d *CDisk) readGate() {
+	d.mu.Lock()
+	if d.gateGo == nil {
+		d.mu.Unlock()
+		return
+	}
+	d.mu.Unlock()
+	g := goid()
+	d.mu.Lock()
+	if d.gateGo == nil || g != d.gateG {
+		d.mu.Unlock()
+		return
+	}
+	d.gateCnt++
+	if d.gateCnt != d.gateN {
+		d.mu.Unlock()
+		return
+	}
+	hit, wait := d.gateHit, d.gateGo
+	d.mu.Unlock()
+	close(hit)
+	<-wait
 }
 
 var zeroBlock = make([]byte, BlockSize)
@@ -87,6 +139,7 @@ func (d *CDisk) maybeYield() {
 }
 
 func (d *CDisk) ReadTo(a uint64, b []byte) {
+	d.readGate()
 	d.maybeYield()
 	d.mu.Lock()
 	if a >= d.size {
